@@ -10,7 +10,7 @@ RULE = (
     "per base mesh the complete pair space: {reflexive, copy, twin from the same source, one longitude changed, "
     "one latitude changed, two corners of one face swapped, one connectivity entry replaced, one padding entry replaced by a node (and the reverse), one extra all-padding column, one extra node, one "
     "node fewer (unused), one extra face, one face fewer, same arrays read through another format (UGRID dataset), "
-    "non-Grid operands} x both operand orders x {==, !=}; plus histories: a copy (or the original) edited in place after copy() in one connectivity entry / longitude / latitude, and two grids built from the same array objects of which one gets a coordinate replaced through the node_lon / node_lat setter (the untouched grid must still equal a never-touched reference); derived quantities computed on one side only; dask-backed grids after Grid.chunk() (equal and single-entry-different pairs, chunked vs in-memory). Oracle: equal iff same format and identical node_lon, "
+    "non-Grid operands} x both operand orders x {==, !=}; plus histories: a copy (or the original) edited in place after copy() in one connectivity entry / longitude / latitude, and two grids built from the same array objects of which one gets a coordinate replaced through the node_lon / node_lat setter (the untouched grid must still equal a never-touched reference); derived quantities computed on one side only; Cartesian-only grids (face-vertex constructor) whose lon/lat are derived by reading node_lat / node_lon / face_lat / edge_lat / bounds first on one side only; dask-backed grids after Grid.chunk() (equal and single-entry-different pairs, chunked vs in-memory). Oracle: equal iff same format and identical node_lon, "
     "node_lat, face_node_connectivity. Non-trivial = a twin differing in exactly one array from the base."
 )
 ASSUMPTIONS = ["twins are built from independently copied arrays through Grid.from_topology / a UGRID dataset"]
@@ -233,6 +233,33 @@ def run_case(ctx, case):
     judge("derived_on_one_side:copy_taken_before", left, early_copy, True, {"touched": "+".join(sorted(pick))})
     judge("derived_on_one_side:copy_taken_after", left, left.copy(), True, {"touched": "+".join(sorted(pick))})
     judge("derived_on_one_side:vs_one_lon", left, mk(l2, lat, conn), False, {"touched": "+".join(sorted(pick))})
+    # (3b) Cartesian-only sources (face-vertex constructor): lon/lat are derived on first use - whichever coordinate is read first,
+    # on one side only, the grid still equals a never-touched twin, its own copies, and differs from a twin with one corner moved
+    try:
+        w_ = max(len(f_) for f_ in m.faces)
+        fv = np.full((m.n_face, w_, 3), float(ux.INT_FILL))
+        for i_, f_ in enumerate(m.faces):
+            fv[i_, : len(f_)] = m.xyz[f_]
+        mkc = lambda a_: U.Grid.from_face_vertices(np.array(a_), latlon=False)  # noqa: E731
+        P_ = fv[0, 0] + np.array([3e-7, -2e-7, 1e-7])
+        fv2 = fv.copy()
+        same_pt = np.all(fv2 == fv[0, 0], axis=-1)
+        fv2[same_pt] = P_ / np.linalg.norm(P_)
+        for first in ("node_lat", "node_lon", "face_lat", "edge_lat", "bounds"):
+            left, right = mkc(fv), mkc(fv)
+            early = left.copy()
+            try:
+                np.asarray(getattr(left, first).values)
+            except Exception:
+                ctx.observe("touch_raised:" + first)
+            ex = {"first_read": first}
+            judge("cartesian_only:read_on_one_side", left, right, True, ex)
+            judge("cartesian_only:copy_taken_before", left, early, True, ex)
+            judge("cartesian_only:copy_taken_after", left, left.copy(), True, ex)
+            judge("cartesian_only:vs_one_corner_moved", left, mkc(fv2), False, ex)
+        ctx.observe("cartesian_only_histories")
+    except Exception as e:
+        ctx.check("no_exception", False, {"history": "cartesian_only", "exc": core.exc_sig(e)}, {"exc": repr(e)})
     # (4) dask-backed grids (Grid.chunk()): same judgement as for the in-memory ones
     try:
         ch = lambda g_: (g_.chunk(), g_)[1]  # noqa: E731  (chunk() converts in place)
